@@ -94,3 +94,67 @@ def end_linecol_dynamic(buf, end):
         return 1, 1
     l, c = linecol(buf, end - 1)
     return l, c + 1
+
+
+# ---------------------------------------------------------------------------------------------------
+# the documented basic-lexer tiling (C07)
+
+INF = 10 ** 9
+
+
+class TDef:
+    """A terminal for the reference lexer: name, kind ('str'|'re'), value, flags (string of letters), priority and
+    *declared* maximal width (hand-annotated in the menus: len for strings, INF for unbounded regexps)."""
+
+    def __init__(self, name, kind, value, flags='', prio=0, width=None):
+        self.name, self.kind, self.value, self.flags, self.prio = name, kind, value, flags, prio
+        self.width = len(value) if width is None else width
+        self.pat = (kind, value, flags)
+
+    def sort_key(self):
+        return (-self.prio, -self.width, -len(self.value), self.name)
+
+    def text(self):
+        from .gram import pat_text
+        return '%s%s: %s' % (self.name, '.%d' % self.prio if self.prio else '', pat_text(self.pat))
+
+
+def lex_basic(tdefs, ignore, text, allowed=None):
+    """-> ('ok', [(type, value, start)...]) | ('err', offset, tokens_so_far)
+    At every position: the first terminal, in the documented order (higher priority, longer maximal width, longer
+    pattern, name), that matches a non-empty string there; the keyword exception re-types the text of a regexp
+    terminal that is exactly a same-priority string terminal.  `allowed(tokens_so_far)` optionally restricts the
+    candidates (contextual lexer)."""
+    order = sorted(tdefs, key=TDef.sort_key)
+    bm = isinstance(text, bytes)
+    out = []
+    pos, n = 0, len(text)
+    while pos < n:
+        cands = order if allowed is None else [t for t in order if t.name in allowed(out) or t.name in ignore]
+        hit = None
+        for t in cands:
+            m = compile_pat(t.pat, bm).match(text, pos)
+            if m and m.end() > pos:
+                hit = (t, m.end())
+                break
+        if hit is None:
+            return ('err', pos, out)
+        t, end = hit
+        value = text[pos:end]
+        typ = t.name
+        if t.kind == 're':
+            for s in cands:
+                if s.kind == 'str' and s.prio == t.prio and compile_pat(s.pat, bm).fullmatch(value) \
+                        and _re_matches_literal(t, s, bm):
+                    typ = s.name
+                    break
+        if typ not in ignore:
+            out.append((typ, value if not bm else value.decode('latin1'), pos))
+        pos = end
+    return ('ok', out)
+
+
+def _re_matches_literal(retok, strtok, bm):
+    lit = strtok.value.encode('latin1') if bm else strtok.value
+    m = compile_pat(retok.pat, bm).match(lit)
+    return bool(m) and m.end() == len(lit)
